@@ -636,6 +636,9 @@ def run_op(s, op, a, tmp, i, rr):
             s.dev.auth.maxdata = op['maxdata']
             s.dev.auth.final_maxdata = op['maxdata']
         if op.get('close_first', True):
+            if op.get('close_raises'):
+                # the connection is dead and closing the transport fails too (ENOTCONN on a dead socket): close() raises
+                s.core.fault.at[s.core.ncalls] = op['close_raises']
             s.call('close')
         return s.call('connect')
     if op.get('refuse'):
